@@ -524,7 +524,10 @@ class Exec:
         return list(self._elts(node.elts, env))
 
     def e_Set(self, node, env):
-        return set(self._elts(node.elts, env))
+        elts = self._elts(node.elts, env)
+        if any(is_z3(e) for e in elts):
+            return self._distinct_set(elts)
+        return set(elts)
 
     def _elts(self, elts, env):
         out = []
@@ -700,6 +703,9 @@ class Exec:
         raise OutOfSubset("comparison")
 
     def py_eq(self, l, r):
+        from .values import DSet
+        if isinstance(l, DSet) or isinstance(r, DSet):
+            raise OutOfSubset("== on a set of symbolic elements")
         if isinstance(l, SetLen) or isinstance(r, SetLen):
             sl, other = (l, r) if isinstance(l, SetLen) else (r, l)
             if not is_z3(other) and other == 0:
@@ -799,6 +805,9 @@ class Exec:
         return self.binop(node.op, l, r)
 
     def binop(self, op, l, r):
+        from .values import DSet
+        if isinstance(l, DSet) or isinstance(r, DSet):
+            raise OutOfSubset("operator on a set of symbolic elements")
         conc = not is_z3(l) and not is_z3(r)
         if conc and isinstance(l, (int, float, str, bool, tuple, list)) and isinstance(r, (int, float, str, bool, tuple, list)):
             try:
@@ -1007,7 +1016,30 @@ class Exec:
         out = []
         for e2 in self._comp_envs(node.generators, env):
             out.append(self.eval(node.elt, e2))
-        return ctor(out) if ctor is list else ctor(_hashable(o) for o in out)
+        if ctor is list:
+            return out
+        if any(is_z3(o) for o in out):
+            return self._distinct_set(out)
+        return ctor(_hashable(o) for o in out)
+
+    def _distinct_set(self, elems):
+        """set(...) over symbolic scalars: branch on every equality so that the kept elements are pairwise distinct"""
+        from .values import DSet
+        if any(isinstance(o, SObj) or not _scalar(o) for o in elems):
+            raise OutOfSubset("set of symbolic non-scalars")
+        if len(elems) > 6:
+            raise OutOfSubset("set of more than 6 symbolic elements")
+        kept = DSet()
+        for e in elems:
+            dup = False
+            for r in kept:
+                eq = self.py_eq(e, r)
+                if eq is True or (eq is not False and self.branch(eq, label="set-dup")):
+                    dup = True
+                    break
+            if not dup:
+                kept.append(e)
+        return kept
 
     def _comp_envs(self, gens, env):
         if not gens:
